@@ -7,18 +7,18 @@ the magic, sizes around the 64 KiB copy buffer and multi-megabyte - from a regul
 fragmented at random and at adversarial points: standard output must equal the input, status 0, and the
 recorded trace must be a behaviour of Copy.  Inputs that do begin with a header must behave exactly as
 without -f."""
-import bz2, os, random
+import subprocess, bz2, os, random
 import vlib, campaign, sched
 
 LEVEL = "model_checking"
 
 
 def mc(rep):
-    d = vlib.spec_workdir("mccopy", ["Copy.tla", "MCCopy.tla"])
+    d = vlib.spec_workdir("mccopy", ["Copy.tla", "MCCopy.tla", "CopyInd.tla"])
     for n in (0, 1, 2, 4):
         for e in ("TRUE", "FALSE"):
             with open(os.path.join(d, "C.cfg"), "w") as f:
-                f.write("SPECIFICATION FairSpec\nCONSTANTS NReads = %d\n Exact = %s\nINVARIANTS CDataInv NoDeadlock SignalledAtEnd\nPROPERTY Live\nCHECK_DEADLOCK FALSE\n" % (n, e))
+                f.write("SPECIFICATION FairSpec\nCONSTANTS NReads = %d\n Exact = %s\nINVARIANTS CDataInv NoDeadlock SignalledAtEnd IndHolds\nPROPERTIES Live IndRefines\nCHECK_DEADLOCK FALSE\n" % (n, e))
             r = vlib.tlc(d, "MCCopy.tla", "C.cfg", workers=2, timeout=300)
             if not r.ok:
                 raise vlib.Infra("MCCopy fails for NReads=%d Exact=%s:\n%s" % (n, e, r.text[-1500:]))
@@ -26,10 +26,28 @@ def mc(rep):
             rep.add("transitions", r.generated)
 
 
+def induction(rep):
+    """CopyInd.tla: the inductive invariant of the copy loop for every input length (Apalache)"""
+    d = vlib.spec_workdir("copyind", ["CopyInd.tla"])
+    steps = [("initiation", ["--init=IndInit", "--inv=IndInv", "--length=0"]),
+             ("consecution", ["--init=IndInv", "--inv=IndInv", "--length=1"]),
+             ("IndInv implies Safe", ["--init=IndInv", "--inv=Safe", "--length=0"])]
+    for name, args in steps:
+        p = subprocess.run(["timeout", "600", "apalache-mc", "check", "--cinit=ConstInit", "--out-dir=" + os.path.join(d, "out")] + args + ["CopyInd.tla"],
+                           cwd=d, capture_output=True, text=True)
+        txt = p.stdout + p.stderr
+        if "The outcome is: NoError" not in txt:
+            if "The outcome is: Error" in txt or "violation" in txt.lower():
+                raise vlib.Infra("CopyInd.tla: %s fails (the invariant is not inductive):\n%s" % (name, txt[-1500:]))
+            raise vlib.Infra("apalache-mc failed on CopyInd.tla (%s):\n%s" % (name, txt[-1500:]))
+        rep.add("apalache_obligations_discharged")
+
+
 def run(rep, tier, replay):
     rng = random.Random(vlib.seed())
     exe = vlib.build_impl()
     mc(rep)
+    induction(rep)
     ins = [("len%d" % n, bytes(rng.randrange(256) for _ in range(n))) for n in range(0, 6)]
     ins += [("B", b"B"), ("BZ", b"BZ"), ("BZh", b"BZh"), ("BZh0", b"BZh0tail"), ("BZh:", b"BZh:tail"), ("bzh9", b"bzh9tail"),
             ("BZH9", b"BZH9tail"), ("BZ h", b"BZ h1"), ("zeros4", bytes(4))]
